@@ -1,214 +1,136 @@
 import GdcVerif.Lemmas.RleTotal
 import GdcVerif.Lemmas.ParsersTotal
+import GdcVerif.Lemmas.J2kTotal
 /-!
   C08 — no decoder panics: every byte string yields a result or an error.
 
-  The models have an explicit `panic site` outcome for every index, division and `make` the Go
-  code performs on stream-derived values.  For each modelled entry point the file states either
-  the totality theorem, or — where the unchanged code really panics — the counterexample on a
-  concrete witness (replayed on the real code by the harness) plus the `_partial` theorem under
-  the guard the proposed repair adds.  Entry points without a model (T1/T2 bodies, HT cleanup,
-  12-bit sequential scan internals, baseline block decoding, image/jpeg) are searched only.
+  Models follow /repo HEAD after the guard commits (1cb8f42, b3192bf, 8718df8, c3ac264, 456a615,
+  871ae92, e67cccf, 9650374, f4e8601, 879b6e2).  Every index, division and `make` the Go code
+  performs on stream-derived values is an explicit `panic site` branch of the model, placed after
+  the guard the code now has; the theorems below show every such branch dead — for ALL byte
+  strings (and all uint16 frame descriptions for RLE), at loop level (the marker loops are
+  well-founded recursions on the unread length, `PC.run`).  The byte strings that used to panic
+  are kept as regression `example`s: they are errors now.
+  Entry points without a model (entropy decoding, T1/T2 bodies, HT cleanup, MQ, 12-bit scan
+  internals, block decoding, pixel conversion, image/jpeg) are searched only.
 -/
 
 namespace Rle
 
-/-- Full statement for RLE: decodeFrame never panics, whatever the frame description. FALSE on the
-    unchanged code (see `rle_decode_counterexample`). -/
-def rle_decode_total_FullStatement : Prop :=
-  ∀ (i : Info) (data : List Byte) (s : Site), (decodeFrameC i data).1 ≠ .panic s
-
 /-- (1) every store `buffer[pos] = b` of `rleDecoder.decode` is in range — for every frame
-    description (zero, huge and mismatching values included), every stride and every byte string:
-    the run pre-checks of rle.go suffice. -/
+    description, every stride and every byte string: the run pre-checks of rle.go suffice -/
 theorem rle_store_total (i : Info) (data : List Byte) : (decodeFrameC i data).1 ≠ .panic .store :=
   decodeFrameC_no_store_panic i data
 
-/-- (1') the bounds-checked decode loop IS the unchecked one of the C01 model (so the `rle-dec`
-    correspondence ties both) -/
+/-- (1') the bounds-checked decode loop IS the unchecked one of the C01 model -/
 theorem rle_loop_checked_eq (stride : Nat) (buf : Array Byte) (pos : Nat) (rem : List Byte) :
     decodeLoopChk stride buf pos rem = liftErr (decodeLoop stride buf pos rem) :=
   decodeLoopChk_eq stride buf pos rem
 
-/-- (2) partial: no panic at all when the frame buffer size computed from FrameInfo is one `make`
-    accepts (≤ 2^48 bytes).  Missing for the full statement: decodeFrame allocates
-    `bytesAllocated·spp·w·h` bytes from the uint16 fields before validating anything, and
-    BitsAllocated = 0 wraps to bytesAllocated = 8192. -/
-theorem rle_decode_total_partial (i : Info) (data : List Byte) (ha : i.frameSize ≤ maxAlloc) (s : Site) :
-    (decodeFrameC i data).1 ≠ .panic s := decodeFrameC_total_of_alloc i data ha s
+/-- (2) FULL: `Codec.decodeFrame` has no panic outcome for any uint16 FrameInfo (zero, wrapped and
+    mismatching values included) and any byte string.  (`U16` is the Go type of the fields, not a
+    guard.)  The guard of commit 9650374 bounds the frame buffer by 15·65535² + 1 bytes. -/
+theorem rle_decode_total (i : Info) (hu : i.U16) (data : List Byte) (s : Site) :
+    (decodeFrameC i data).1 ≠ .panic s := decodeFrameC_total i hu data s
 
-/-- (2') under the same hypothesis the C08 view and the C01 model agree on every input -/
-theorem rle_decode_agrees (i : Info) (data : List Byte) (ha : i.frameSize ≤ maxAlloc) :
-    (decodeFrameC i data).1.plain = decodeFrame i data := decodeFrameC_agrees i data ha
+/-- (2') the exact bound on the frame buffer of an accepted description -/
+theorem rle_frame_size_bound (i : Info) (hg : ¬ i.Rejected) (hu : i.U16) :
+    i.frameSize ≤ 15 * (65535 * 65535) + 1 := frameSize_le_of_accepted i hg hu
 
-/-- (3) the unchanged code panics: Width = Height = SamplesPerPixel = 65535, BitsAllocated = 0 -/
-theorem rle_decode_counterexample :
-    (decodeFrameC { width := 65535, height := 65535, bitsAllocated := 0, spp := 65535, planar := 0 } [1]).1
-      = .panic .makeslice := by decide
+/-- (2'') the C08 view and the C01 model are the same function -/
+theorem rle_decode_agrees (i : Info) (hu : i.U16) (data : List Byte) :
+    (decodeFrameC i data).1.plain = decodeFrame i data := decodeFrameC_agrees i hu data
 
-/-- non-vacuity of (2): a description with mismatching, partly zero fields satisfies the hypothesis -/
-example : ({ width := 3, height := 0, bitsAllocated := 0, spp := 7, planar := 5 } : Info).frameSize ≤ maxAlloc := by
-  decide
+/-- regression anchor: the former makeslice witness (65535×65535, BitsAllocated 0, 65535 samples) -/
+example : (decodeFrameC { width := 65535, height := 65535, bitsAllocated := 0, spp := 65535, planar := 0 } [1]).1
+    = .err := by decide
+
+/-- non-vacuity: a description that is accepted and reaches the allocation -/
+example : let i : Info := { width := 3, height := 2, bitsAllocated := 16, spp := 3, planar := 0 }
+    i.U16 ∧ ¬ i.Rejected := by decide
 
 end Rle
 
 namespace JM
+open PC
 
-/-- Full statement for HuffmanTable.Build. FALSE on the unchanged code. -/
-def huff_build_total_FullStatement : Prop :=
-  ∀ (bits : List Nat) (s : Site), build bits (sumList bits) ≠ .panic s
+/-- (3) FULL: `HuffmanTable.Build` has no panic outcome for any BITS and any number of values
+    (commit 1cb8f42) -/
+theorem huff_build_total (bits : List Nat) (nvalues : Nat) (s : Site) :
+    build bits nvalues ≠ .error (.panic s) := buildLens_total nvalues bits 0 0 s
 
-/-- (4) `Values[p]` in Build is always in range when Values has one entry per code (what every
-    parseDHT guarantees: `totalCodes = Σ BITS`) -/
-theorem huff_build_values_total (bits : List Nat) : build bits (sumList bits) ≠ .panic .huffValues :=
-  buildLens_no_values_panic (sumList bits) bits 0 0 (by omega)
+/-- regression anchor: over-subscribed BITS = [3,0,…] is ErrInvalidDHT now -/
+example : build [3, 0, 0, 0, 0, 0, 0, 0, 0, 0, 0, 0, 0, 0, 0, 0] 3 = .error .err := rfl
+/-- … and fewer values than codes as well -/
+example : build [1, 1, 0, 0, 0, 0, 0, 0, 0, 0, 0, 0, 0, 0, 0, 0] 1 = .error .err := rfl
+/-- non-vacuity: the standard luminance DC table of T.81 K.3 is accepted -/
+example : build [0, 1, 5, 1, 1, 1, 1, 1, 1, 0, 0, 0, 0, 0, 0, 0] 12 = .ok () := rfl
 
-/-- (5) partial: `lookupTable[code+j]` is in range when the code counts satisfy the prefix
-    condition `(Σ_{k≤l} BITS[k]) · 2^(7−l) ≤ 256` for l < 8 — which canonical Huffman tables do,
-    and which untrusted BITS need not. -/
-theorem huff_build_total_partial (bits : List Nat) (hk : kraftOK bits 0 0 = true) :
-    build bits (sumList bits) = .ok () :=
-  buildLens_ok_of_kraft (sumList bits) bits 0 0 (by omega) hk
+/-- (4) FULL: `lossless14sv1.Decode` — marker loop, parseSOF3, parseDHT + Build, parseSOS, first
+    table lookup of decodeScan — has no panic outcome for any byte string -/
+theorem sv1_decode_total (bs : Bytes) (s : Site) : (sv1Decode bs).2 ≠ .panic s := sv1Decode_total bs s
 
-/-- (6) the unchanged code panics on BITS = [3,0,…] (three 1-bit codes) -/
-theorem huff_build_counterexample :
-    build [3, 0, 0, 0, 0, 0, 0, 0, 0, 0, 0, 0, 0, 0, 0, 0] 3 = .panic .huffLookup := by decide
+/-- regression anchors: the former witnesses (Td/Ta byte 0x04 resp. 0x40, over-subscribed DHT) -/
+example : (sv1Decode [0xff, 0xd8, 0xff, 0xc3, 0x00, 0x0b, 0x02, 0x00, 0x01, 0x00, 0x01, 0x01, 0x01, 0x11, 0x00,
+    0xff, 0xda, 0x00, 0x08, 0x01, 0x01, 0x04, 0x01, 0x00, 0x00]).2 = .err := by
+  rw [sv1Decode_eval 8 rfl rfl] <;> rfl
+example : (sv1Decode [0xff, 0xd8, 0xff, 0xc3, 0x00, 0x0b, 0x02, 0x00, 0x01, 0x00, 0x01, 0x01, 0x01, 0x11, 0x00,
+    0xff, 0xda, 0x00, 0x08, 0x01, 0x01, 0x40, 0x01, 0x00, 0x00]).2 = .err := by
+  rw [sv1Decode_eval 8 rfl rfl] <;> rfl
+example : dhtTable 3 [0x00, 0x03, 0, 0, 0, 0, 0, 0, 0, 0, 0, 0, 0, 0, 0, 0, 0, 1, 2, 3] = .error .err := rfl
 
-/-- non-vacuity of (5): the standard luminance DC table of T.81 K.3 -/
-example : kraftOK [0, 1, 5, 1, 1, 1, 1, 1, 1, 0, 0, 0, 0, 0, 0, 0] 0 0 = true := by decide
+/-- (5) FULL: `jpeg/lossless.Decode` (marker loop, parseSOF3, parseDHT, parseSOS incl. the
+    `data[2+component*2]` / `dcTableSelectors[component]` indices, first table lookup) -/
+theorem jll_decode_total (bs : Bytes) (s : Site) : (jllDecode bs).2 ≠ .panic s := jllDecode_total bs s
 
-/-- Full statement for lossless14sv1.Decode (up to the first Huffman symbol). FALSE (Build). -/
-def sv1_decode_total_FullStatement : Prop := ∀ (bs : Bytes) (s : Site), (sv1Decode bs).1 ≠ .panic s
+/-- (6) FULL: `baseline.Decode` (marker loop, parseSOF incl. the DivCeil divisors, parseDQT,
+    parseDHT, parseDRI, parseSOS, start of decodeScan and the first decodeBlock table lookup) -/
+theorem baseline_decode_total (bs : Bytes) (s : Site) : (blDecode bs).2 ≠ .panic s := blDecode_total bs s
 
-/-- loop-level statement for the table selector alone; not proved (the invariant below is proved
-    for each segment handler, the plumbing through the marker loop is left to correspondence) -/
-def sv1_selector_total_FullStatement : Prop := ∀ (bs : Bytes), (sv1Decode bs).1 ≠ .panic .sv1TableSel
-
-/-- (7) parseSOF3 establishes, and parseSOS preserves, "every stored DC table selector is < 4"
-    (repo commit f4e8601 added the check; before it the whole Td/Ta byte was stored) … -/
-theorem sv1_sof3_selectors (st st' : Sv1) (data : Bytes) (al : List Nat)
-    (h : sv1SOF3 st data = (some st', al)) : Sel4 st'.comps := sv1SOF3_sel st st' data al h
-
-theorem sv1_sos_selectors (st st' : Sv1) (data : Bytes) (ha : Sel4 st.comps)
-    (h : sv1SOS st data = some st') : Sel4 st'.comps := sv1SOS_sel st st' data ha h
-
-/-- (7') … under which the first table lookup of decodeScan cannot panic -/
-theorem sv1_scanstart_total_partial (st : Sv1) (h : Sel4 st.comps) (s : Site) :
-    sv1ScanStart st ≠ .panic s := sv1ScanStart_total st h s
-
-/-- (8) the former witness (Td/Ta byte 0x04 … 0xff) is now an error: selector byte 0x40 -/
-theorem sv1_decode_former_witness :
-    (sv1Decode [0xff, 0xd8, 0xff, 0xc3, 0x00, 0x0b, 0x02, 0x00, 0x01, 0x00, 0x01, 0x01, 0x01, 0x11, 0x00,
-                0xff, 0xda, 0x00, 0x08, 0x01, 0x01, 0x40, 0x01, 0x00, 0x00]).1 = .err := by
-  simp [sv1Decode, sv1Loop, readMarker, skipFill, readSegment, sv1SOF3, sv1Comps, sv1SOS, sv1Selectors,
-    List.findIdx?, List.findIdx?.go]
-
-/-- non-vacuity of (7) -/
-example : Sel4 ({ comps := [(1, 0), (2, 3)] } : Sv1).comps := by
-  intro c hc; simp at hc; rcases hc with h | h <;> subst h <;> decide
-
-/-- (8') … and a DHT with over-subscribed BITS takes every JPEG-family decoder down in Build -/
-theorem sv1_decode_counterexample_dht :
-    (sv1Decode [0xff, 0xd8, 0xff, 0xc4, 0x00, 0x16, 0x00, 0x03, 0, 0, 0, 0, 0, 0, 0, 0, 0, 0, 0, 0, 0, 0, 0,
-                1, 2, 3]).1 = .panic .huffLookup := by
-  simp [sv1Decode, sv1Loop, readMarker, skipFill, readSegment, parseDHT, dhtTable, build, buildLens, buildCodes]
-
-/-- (9) baseline.Decode: SOS before any SOF divides by mcuWidth = 0 -/
-theorem baseline_sos_first_counterexample :
-    blSosFirst [0xff, 0xd8, 0xff, 0xda, 0x00, 0x06, 0x00, 0x00, 0x00, 0x00] = .panic .blDivCeil := by decide
+/-- regression anchors: SOS before any SOF (was DivCeil by 0); Td = 4 in SOS (was dcTables[4]) -/
+example : (blDecode [0xff, 0xd8, 0xff, 0xda, 0x00, 0x06, 0x00, 0x00, 0x00, 0x00]).2 = .err := by
+  rw [blDecode_eval 8 rfl rfl] <;> rfl
+example : (blDecode [0xff, 0xd8, 0xff, 0xc0, 0x00, 0x0b, 0x08, 0x00, 0x01, 0x00, 0x01, 0x01, 0x01, 0x11, 0x00,
+    0xff, 0xda, 0x00, 0x08, 0x01, 0x01, 0x40, 0x00, 0x3f, 0x00]).2 = .err := by
+  rw [blDecode_eval 8 rfl rfl] <;> rfl
 
 end JM
 
 namespace JlsH
+open PC
 
-/-- Full statement for the JPEG-LS header. FALSE on the unchanged code. -/
-def jls_header_total_FullStatement : Prop := ∀ (bs : JM.Bytes) (s : Site), (header bs).1 ≠ .panic s
+/-- (7) FULL: `jpegls/lossless.Decode` up to the scan (marker loop, parseSOF55, parseLSE, parseSOS
+    and every division of ComputeCodingParameters / computeThresholds they trigger) -/
+theorem jls_header_total (bs : Bytes) (s : Site) : (header bs).2 ≠ .panic s := header_total bs s
 
-/-- (10) partial: parseSOF55 cannot panic for a precision byte below 64 (the repair restricts it
-    to 2..16).  Missing: precision ≥ 64 makes `1<<bitDepth` zero, MAXVAL = −1, and
-    computeThresholds divides by MAXVAL + 1. -/
-theorem jls_sof55_total_partial (st : St) (data : JM.Bytes) (hp : data.getD 0 0 < 64) (s : Site) :
-    sof55 st data ≠ .panic s := by
-  have h1 := maxValOf_succ_ne_zero (data.getD 0 0) hp
-  have hlo : -1 ≤ maxValOf (data.getD 0 0) := maxValOf_ge _
-  have hs := computeThresholds_some (maxValOf (data.getD 0 0)) h1 hlo
-  unfold sof55
-  simp only
-  split
-  · simp
-  · split
-    · simp
-    · split
-      · simp
-      · cases hc : computeThresholds (maxValOf (data.getD 0 0)) 0 with
-        | some v => simp
-        | none => rw [hc] at hs; cases hs
+/-- (8) FULL: `jpegls/nearlossless.Decode` up to the scan (parameters derived at SOS with the
+    NEAR byte of the stream: `(maxVal+2·near)/(2·near+1)`, `256/(maxVal+1)`) -/
+theorem jlsnear_header_total (bs : Bytes) (s : Site) : (nheader bs).2 ≠ .panic s := nheader_total bs s
 
-/-- (11) the unchanged code panics: SOF55 with precision byte 0x40 -/
-theorem jls_header_counterexample :
-    (header [0xff, 0xd8, 0xff, 0xf7, 0x00, 0x0b, 0x40, 0x00, 0x01, 0x00, 0x01, 0x01, 0x01, 0x11, 0x00]).1
-      = .panic .thresholdsDiv := by
-  simp [header, loop, JM.readMarker, JM.skipFill, JM.readSegment, sof55, computeThresholds, maxValOf, wrap64]
+/-- regression anchor: SOF55 with precision byte 0x40 (was 256/(MAXVAL+1) with MAXVAL = −1) -/
+example : (header [0xff, 0xd8, 0xff, 0xf7, 0x00, 0x0b, 0x40, 0x00, 0x01, 0x00, 0x01, 0x01, 0x01, 0x11, 0x00]).2 = .err := by
+  rw [header_eval 8 rfl rfl] <;> rfl
 
-example : ([8, 0, 1, 0, 1, 1] : JM.Bytes).getD 0 0 < 64 := by decide
+/-- the division guard is not vacuous: without the precision check MAXVAL would be −1 -/
+example : thresholdsDivOk (maxValOf 64) = false := by decide
 
 end JlsH
 
 namespace J2kH
+open PC
 
-/-- Full statement for the JPEG 2000 main header. FALSE on the unchanged code. -/
-def j2k_mainheader_total_FullStatement : Prop := ∀ (bs : Bytes) (s : Site), parse bs ≠ .panic s
+/-- (9) FULL: `codestream.Parser.Parse` — SOC, main header (SIZ, COD, COC, QCD, QCC, POC, RGN, COM,
+    unknown segments incl. the backwards step of skipSegment), tile-parts (SOT, tile-part header,
+    SOD, Psot arithmetic, marker scan), mergeTilePart — has no panic outcome for any byte string.
+    (MCT/MCC/MCO segments end the modelled walk with `beyond`.) -/
+theorem j2k_parse_total (bs : Bytes) (s : Site) : (parse bs).2 ≠ .panic s := parse_total bs s
 
-/-- (12) partial: parseQCD / parseCOM cannot panic when the length field covers the fixed part of
-    the segment (the repair: `length < 3` resp. `length < 4` → error). SIZ, COD and the segment
-    skipper have no panic outcome at all (their models are `Option`-valued). -/
-theorem j2k_qcd_total_partial (bs : Bytes) (h : ∀ l r, rd16 bs = some (l, r) → 3 ≤ l) (s : Site) :
-    parseQCD bs ≠ .panic s := by
-  unfold parseQCD
-  cases h1 : rd16 bs with
-  | none => simp
-  | some p =>
-    obtain ⟨l, r⟩ := p
-    have := h l r h1
-    simp only
-    cases rd8 r with
-    | none => simp
-    | some q =>
-      simp only
-      have hn : ¬ l < 3 := by omega
-      rw [if_neg hn]
-      split <;> simp
-
-theorem j2k_com_total_partial (bs : Bytes) (h : ∀ l r, rd16 bs = some (l, r) → 4 ≤ l) (s : Site) :
-    parseCOM bs ≠ .panic s := by
-  unfold parseCOM
-  cases h1 : rd16 bs with
-  | none => simp
-  | some p =>
-    obtain ⟨l, r⟩ := p
-    have := h l r h1
-    simp only
-    cases rd16 r with
-    | none => simp
-    | some q =>
-      simp only
-      have hn : ¬ l < 4 := by omega
-      rw [if_neg hn]
-      split <;> simp
-
-/-- (13) the unchanged code panics: QCD with length 0 -/
-theorem j2k_mainheader_counterexample_qcd :
-    parse [0xff, 0x4f, 0xff, 0x51, 0x00, 0x29, 0, 0, 0, 0, 0, 1, 0, 0, 0, 1, 0, 0, 0, 0, 0, 0, 0, 0, 0, 0, 0, 1, 0, 0, 0, 1,
-           0, 0, 0, 0, 0, 0, 0, 0, 0, 1, 7, 1, 1, 0xff, 0x5c, 0x00, 0x00, 0x40] = .panic .qcdMake := by
-  simp [parse, walk, parseSIZ, parseQCD, rd8, rd16, rd32]
-
-/-- (13') … and COM with length 0 -/
-theorem j2k_mainheader_counterexample_com :
-    parse [0xff, 0x4f, 0xff, 0x51, 0x00, 0x29, 0, 0, 0, 0, 0, 1, 0, 0, 0, 1, 0, 0, 0, 0, 0, 0, 0, 0, 0, 0, 0, 1, 0, 0, 0, 1,
-           0, 0, 0, 0, 0, 0, 0, 0, 0, 1, 7, 1, 1, 0xff, 0x64, 0x00, 0x00, 0x00, 0x01] = .panic .comMake := by
-  simp [parse, walk, parseSIZ, parseCOM, rd8, rd16, rd32]
-
-example : ∀ l r, rd16 [0, 5, 0x40, 1, 2] = some (l, r) → 3 ≤ l := by
-  intro l r h; simp [rd16] at h; omega
+/-- regression anchors: QCD / COM with length 0 (were make([]byte, −3) / make([]byte, −4)) -/
+example : (parse [0xff, 0x4f, 0xff, 0x51, 0x00, 0x29, 0, 0, 0, 0, 0, 1, 0, 0, 0, 1, 0, 0, 0, 0, 0, 0, 0, 0, 0, 0, 0, 1, 0, 0, 0, 1,
+    0, 0, 0, 0, 0, 0, 0, 0, 0, 1, 7, 1, 1, 0xff, 0x5c, 0x00, 0x00, 0x40]).2 = .err := by
+  rw [parse_eval 8 rfl rfl] <;> rfl
+example : (parse [0xff, 0x4f, 0xff, 0x51, 0x00, 0x29, 0, 0, 0, 0, 0, 1, 0, 0, 0, 1, 0, 0, 0, 0, 0, 0, 0, 0, 0, 0, 0, 1, 0, 0, 0, 1,
+    0, 0, 0, 0, 0, 0, 0, 0, 0, 1, 7, 1, 1, 0xff, 0x64, 0x00, 0x00, 0x00, 0x01]).2 = .err := by
+  rw [parse_eval 8 rfl rfl] <;> rfl
 
 end J2kH
